@@ -153,6 +153,16 @@ CHECKS = {
               'level records',
               'Every droppable level of every generated taxonomy.',
               'DESIGN.md section 2 C17', _BASE_NOTE),
+    'C18': _e('exploration',
+              'end-to-end chain monitor: the pipeline\'s own stages run one '
+              'after the other on generated references (each stage reading '
+              'the previous stage\'s file), then the centroid query is '
+              'mapped with the trace hook on; the statement\'s precondition '
+              '(no rival leaf perfectly correlated on the drawn genes) is '
+              'evaluated per (centroid, node, iteration) by the independent '
+              'vote oracle',
+              'Every (centroid, node) pair of every generated chain.',
+              'DESIGN.md section 2 C18', _BASE_NOTE),
     'C19': _e('exploration',
               'file-system monitors around real stage executions: recursive '
               'sha256 snapshots of input / output / scratch / TMPDIR / cwd '
